@@ -21,6 +21,8 @@ package walletdb
 
 //@ const noKeys [Bytes]Bool
 //@ axiom noKeys_empty: forall k Bytes :: {select(noKeys, k)} !select(noKeys, k)
+// errors produced by the database layer itself (never a sentinel of a client package)
+//@ spec func dbErr(e Iface) Bool
 //@ spec func bid(b Iface) Int
 //@ spec func sub(parent Int, key Bytes) Int
 //@ axiom sub_injective: forall p1 Int, k1 Bytes, p2 Int, k2 Bytes :: {sub(p1, k1), sub(p2, k2)} sub(p1, k1) == sub(p2, k2) ==> p1 == p2 && k1 == k2
@@ -63,13 +65,13 @@ package walletdb
 //@   modifies DBhas, DBval, wfault
 //@   ensures ok: err == nil ==> DBhas == store(old(DBhas), bid(b), store(select(old(DBhas), bid(b)), old(bytes(key)), true))
 //@       && DBval == store(old(DBval), bid(b), store(select(old(DBval), bid(b)), old(bytes(key)), old(bytes(value)))) && wfault == old(wfault)
-//@   ensures failed: err != nil ==> DBhas == old(DBhas) && DBval == old(DBval) && wfault
+//@   ensures failed: err != nil ==> dbErr(err) && DBhas == old(DBhas) && DBval == old(DBval) && wfault
 
 //@ iface ReadWriteBucket.Delete(b, key) (err)
 //@   trusted
 //@   modifies DBhas, wfault
 //@   ensures ok: err == nil ==> DBhas == store(old(DBhas), bid(b), store(select(old(DBhas), bid(b)), old(bytes(key)), false)) && wfault == old(wfault)
-//@   ensures failed: err != nil ==> DBhas == old(DBhas) && wfault
+//@   ensures failed: err != nil ==> dbErr(err) && DBhas == old(DBhas) && wfault
 
 //@ iface ReadWriteBucket.CreateBucket(b, key) (r, err)
 //@   trusted
@@ -77,7 +79,7 @@ package walletdb
 //@   ensures ok: err == nil ==> r != nil && bid(r) == sub(bid(b), old(bytes(key))) && !select(old(DBlive), bid(r))
 //@       && DBlive == store(old(DBlive), bid(r), true) && wfault == old(wfault)
 //@       && DBhas == store(old(DBhas), bid(r), noKeys)
-//@   ensures failed: err != nil ==> DBlive == old(DBlive) && DBhas == old(DBhas) && wfault
+//@   ensures failed: err != nil ==> dbErr(err) && DBlive == old(DBlive) && DBhas == old(DBhas) && wfault
 
 //@ iface ReadWriteBucket.CreateBucketIfNotExists(b, key) (r, err)
 //@   trusted
@@ -85,25 +87,29 @@ package walletdb
 //@   ensures ok: err == nil ==> r != nil && bid(r) == sub(bid(b), old(bytes(key)))
 //@       && DBlive == store(old(DBlive), bid(r), true) && wfault == old(wfault)
 //@       && DBhas == (select(old(DBlive), bid(r)) ? old(DBhas) : store(old(DBhas), bid(r), noKeys))
-//@   ensures failed: err != nil ==> DBlive == old(DBlive) && DBhas == old(DBhas) && wfault
+//@   ensures failed: err != nil ==> dbErr(err) && DBlive == old(DBlive) && DBhas == old(DBhas) && wfault
 
+// Deleting a bucket that does not exist is refused with ErrBucketNotFound;
+// that is an answer, not a failed write.
+//@ axiom walletdb_errs: ErrBucketNotFound != nil
 //@ iface ReadWriteBucket.DeleteNestedBucket(b, key) (err)
 //@   trusted
 //@   modifies DBlive, wfault
 //@   ensures ok: err == nil ==> DBlive == store(old(DBlive), sub(bid(b), old(bytes(key))), false) && wfault == old(wfault)
-//@   ensures failed: err != nil ==> DBlive == old(DBlive) && wfault
+//@   ensures missing: err == ErrBucketNotFound ==> DBlive == old(DBlive) && wfault == old(wfault)
+//@   ensures failed: err != nil && err != ErrBucketNotFound ==> dbErr(err) && DBlive == old(DBlive) && wfault
 
 //@ iface ReadWriteBucket.NextSequence(b) (r, err)
 //@   trusted
 //@   modifies DBseq, wfault
 //@   ensures ok: err == nil ==> r == select(old(DBseq), bid(b)) + 1 && DBseq == store(old(DBseq), bid(b), r) && wfault == old(wfault)
-//@   ensures failed: err != nil ==> DBseq == old(DBseq) && wfault
+//@   ensures failed: err != nil ==> dbErr(err) && DBseq == old(DBseq) && wfault
 
 //@ iface ReadWriteBucket.SetSequence(b, v) (err)
 //@   trusted
 //@   modifies DBseq, wfault
 //@   ensures ok: err == nil ==> DBseq == store(old(DBseq), bid(b), v) && wfault == old(wfault)
-//@   ensures failed: err != nil ==> DBseq == old(DBseq) && wfault
+//@   ensures failed: err != nil ==> dbErr(err) && DBseq == old(DBseq) && wfault
 
 //@ iface ReadWriteBucket.Tx(b) (tx)
 //@   trusted
@@ -114,3 +120,22 @@ package walletdb
 //@   trusted
 //@   modifies commitHooks
 //@   ensures registered: commitHooks == old(commitHooks) + 1
+
+// ForEach / Update / View run a caller-supplied function; a write fault inside
+// it is reported by that function (its own contract), and these combinators
+// return the function's error (or their own), so the fault is reported.
+//@ iface ReadBucket.ForEach(b, fn) (err)
+//@   trusted
+//@   ensures fault_reported: wfault && !old(wfault) ==> err != nil
+//@ iface DB.Update(db, f, reset) (err)
+//@   trusted
+//@   ensures fault_reported: wfault && !old(wfault) ==> err != nil
+//@ iface DB.View(db, f, reset) (err)
+//@   trusted
+//@   ensures fault_reported: wfault && !old(wfault) ==> err != nil
+//@ func Update(db, f) (err)
+//@   trusted
+//@   ensures fault_reported: wfault && !old(wfault) ==> err != nil
+//@ func View(db, f) (err)
+//@   trusted
+//@   ensures fault_reported: wfault && !old(wfault) ==> err != nil
